@@ -1296,7 +1296,7 @@ hwloc_topology_get_default_nodeset(hwloc_topology_t topology,
    * only take what's necessary: first nodes, non-empty */
   for(i=1; i<nrnodes; i++) {
     /* already taken? */
-    if (hwloc_bitmap_isset(nodeset, i))
+    if (hwloc_bitmap_isset(nodeset, nodes[i]->os_index))
       continue;
     /* take non-overlapping nodes, except empty  */
     if (hwloc_bitmap_isincluded(nodes[i]->cpuset, remainingcpuset)
